@@ -71,6 +71,9 @@ class Scenario:
         self.tables = kw.get("tables", "random")          # "random" | "spec:scalar" | "spec:multi" (IncExplainer.tla)
         self.out_scale = kw.get("out_scale", 1)           # magnitude of the model outputs (exact factor)
         self.loss_scale = kw.get("loss_scale", 1)         # magnitude of the loss values (exact factor)
+        # the model reads the instance dict by position (like a wrapper without feature names does): every input the
+        # library builds for it must keep the key order of the explained instance
+        self.positional = kw.get("positional", False)
         self.shuffle_keys = kw.get("shuffle_keys", False)  # the key order of the instance dicts changes from call to call
         self.extreme = kw.get("extreme", False)            # legal but extreme random outcomes (first / last row, ...)
         self.fault_type = kw.get("fault_type", 0)          # exception class of injected faults (index into proxies.BOOMS)
@@ -184,7 +187,7 @@ def build(sc):
         return [x[nm] for nm in names]
 
     def raw_model(x):
-        v = xvec(x)
+        v = list(x.values()) if sc.positional else xvec(x)
         inter = v[0] * v[-1] if not sc.ignore_feature or sc.ignore_feature not in (1, d) else 0
         osc = F(sc.out_scale)
         if nlab == 1:
@@ -644,11 +647,13 @@ def random_scenario(rng, cls=None, quickness=1, **force):
         stream.append((xs, y, n_over, upd))
     kw = dict(cls=cls, d=d, names=names, n_inner=n_inner, dynamic=dynamic, alpha=alpha, companion=rng.random() < 0.3,
               prefill=(rng.choice([0, 0, 0, 2, 5]) if storage is not None else 0),
-              shuffle_keys=rng.random() < 0.3, extreme=rng.random() < 0.2, fault_type=rng.randrange(len(BOOMS)),
+              positional=rng.random() < 0.15, shuffle_keys=rng.random() < 0.3, extreme=rng.random() < 0.2, fault_type=rng.randrange(len(BOOMS)),
               out_scale=rng.choice([1, 1, 1, F(1, 10 ** 10), F(1, 10 ** 6), 10 ** 7]),
               loss_scale=rng.choice([1, 1, 1, F(1, 10 ** 9), 10 ** 8]),
               bigger=(cls == "sage" and rng.random() < 0.3), storage=storage,
               store_targets=rng.random() < 0.5, imputer=imputer, nlab=nlab, model_seed=rng.randrange(10 ** 6),
               stream=stream, seed=rng.randrange(2 ** 31))
     kw.update(force)
+    if kw.get("positional"):
+        kw["shuffle_keys"] = True
     return Scenario(**kw)
